@@ -62,8 +62,13 @@ def main():
         print("demo: clean rc=%d, patched rc=%d" % (rc0, rc1))
         if not notests:
             t0 = time.time()
-            rc, out = sh("PYTHONPATH=%s /venv/bin/python -m pytest -p usewt -q -p no:cacheprovider --timeout=1800 -n 8 "
-                         "--continue-on-collection-errors 2>&1 | tail -15" % scratch, cwd=scratch, timeout=7200)
+            # the interpolator / caching / sampler tests under cherab/core/math take ~20 min on this shared machine: they are
+            # run only when the patch touches cherab/core/math (or with --fulltests); everything else always runs
+            touches_math = "cherab/core/math" in open(patch).read()
+            ignore = "" if (touches_math or "--fulltests" in sys.argv) else "--ignore=cherab/core/math "
+            meta["repo_tests_scope"] = "full suite" if not ignore else "full suite except cherab/core/math (untouched by the patch)"
+            rc, out = sh("PYTHONPATH=%s /venv/bin/python -m pytest -p usewt -q -p no:cacheprovider --timeout=1800 -n 8 %s"
+                         "--continue-on-collection-errors 2>&1 | tail -15" % (scratch, ignore), cwd=scratch, timeout=7200)
             tail = out.strip().splitlines()[-1] if out.strip() else ""
             meta["repo_tests"] = tail
             meta["ran"].append("repository test-suite on patched copy (pytest -n 8): %s (%.0f s)" % (tail, time.time() - t0))
